@@ -88,8 +88,13 @@ def check_case(res, fr, arr, mode, layers, integrate, normalize, rescale, offset
         bad.append(f"'average' normalisation: values average to {np.mean(vals)}")
     if vals and [be.gt for be in bes][-1] != vals[-1]:
         bad.append("values are not stored as the interfaces' reference values in the order given")
-    if vals and not repeat and any(be.gt != v for be, v in zip(bes, vals)):
-        bad.append("BigEdge.gt differs from the returned value")
+    if vals:
+        # an interface listed several times is stored once: its reference value is the one of its last position
+        last = {id(be): v for be, v in zip(bes, vals)}
+        wrong = [i for i, be in enumerate(bes) if be.gt != last[id(be)]]
+        if wrong:
+            bad.append(f"BigEdge.gt of the interface at list position {wrong[0]} is {bes[wrong[0]].gt}, the returned value is {last[id(bes[wrong[0]])]}"
+                       + (" (the interface is listed more than once)" if repeat else ""))
     # linearity in the image / uniform image
     if not bad and normalize is None:
         img2 = Image.fromarray((arr * 2).astype(np.float32))
